@@ -50,14 +50,15 @@ def initSys (c : Cfg S P) (ephs : List (List S)) : Sys S P :=
 def Sys.upd (s : Sys S P) (i : Nat) (f : Member S P → Member S P) (e : Ev) : Sys S P :=
   { ms := s.ms.modify i f, delivered := s.delivered ++ [e] }
 
-/-- one event; the transport never delivers a member's message to itself -/
+/-- one event; the transport never delivers a member's message to itself, and it authenticates the
+sender: `Loop` records it on a `PublicKey` message (`stampSender`) -/
 def stepEv (g : P) (s : Sys S P) (e : Ev) : Sys S P :=
   match e with
   | .start i => s.upd i (Member.start g) e
   | .pk j i =>
     if j = i then s else
     match (s.ms[j]?).bind sentPk with
-    | some x => s.upd i (fun m => m.recvPk g x) e
+    | some x => s.upd i (fun m => m.recvPk g { x with sender := j }) e   -- `Loop` stamps the transport sender
     | none => s
   | .deal j i =>
     if j = i then s else
